@@ -28,7 +28,7 @@ from __future__ import annotations
 import ast
 
 from .. import sym
-from ..model import AnalysisError, Program, attr_chain, norm_stmt
+from ..model import AnalysisError, inline_single_defs, Program, attr_chain, norm_stmt
 from ..paths import Engine, Hooks, State, Seq, Const
 from ..report import Result
 from ..selftest import Variant
@@ -694,14 +694,14 @@ def _check_peak_provenance(prog: Program, res: Result):
         sp, sd = assigns.get(pk), assigns.get(dy)
         if sp is None or sd is None:
             raise AnalysisError(f"{q}: assignment of {pk}[{iv}] or {dy}[{iv}] not found")
-        v = sp.value
+        v = inline_single_defs(fi.node, sp.value, keep=set(win))
         okp = (isinstance(v, ast.Call) and attr_chain(v.func) == "max" and len(v.args) == 1 and isinstance(v.args[0], ast.Name)
                and win.get(v.args[0].id) == series)
         res.ob("R07.6", f"{pk.split('.')[-1]}[i] = max(month window of {series.split('.')[-1]})", okp, prog.loc(fi, sp))
         if not okp:
             res.violation("R07.6", f"peak:{tag}", prog.loc(fi, sp), q, f"{pk}[i] is not the maximum of the month's window of {series}: {norm_stmt(sp)}")
         # day = floor(window.index(peak[i]) / 24)
-        d = sd.value
+        d = inline_single_defs(fi.node, sd.value, keep=set(win))
         okd = False
         if isinstance(d, ast.Call) and attr_chain(d.func) in ("floor", "math.floor", "int") and len(d.args) == 1:
             a = d.args[0]
